@@ -98,5 +98,14 @@ Definition iters_ok (lam dE : Qc) (iters : Z) : bool :=
   && Qc_leb (Qcmult pi_hi lam) (Qcmult (qz iters) (Qcmult (qz 2) dE)).
 Definition cost_ok (lam dE : Qc) (step total : Z) : bool :=
   (0 <? step) && (total mod step =? 0) && iters_ok lam dE (total / step).
+(* surface-code layout costing (AlgorithmParameters.estimate_cost):
+   rounds = floor(toffolis * factory_rounds / factories), computed by the code in floating point: one unit plus 2^-48 relative slack;
+   qubits = ceil(logical * (1 + routing)) * 2 (d+1)^2 + factories * footprint, exact *)
+Definition qfloor (q : Qc) : Z := let x := this q in Qnum x / Zpos (Qden x).
+Definition phys_cost_ok (toff fc : Z) (frounds : Qc) (nlog : Z) (routing : Qc) (dist foot : Z) (rounds qubits : Z) : bool :=
+  let exact := Qcdiv (Qcmult (qz toff) frounds) (qz fc) in
+  (0 <? fc) &&
+  Qc_leb (qabsq (Qcminus (qz rounds) (qz (qfloor exact)))) (Qcplus (qz 1) (Qcdiv exact (qz (2 ^ 48)))) &&
+  (qubits =? qceil (Qcmult (qz nlog) (Qcplus (qz 1) routing)) * (2 * (dist + 1) * (dist + 1)) + fc * foot).
 Fixpoint zlist_eqb (a b : list Z) : bool :=
   match a, b with [], [] => true | x :: a', y :: b' => (x =? y) && zlist_eqb a' b' | _, _ => false end.
